@@ -105,12 +105,13 @@ static Q integ(const QF& f, Q a, Q b) {
   if (!(b > a)) return 0;
   struct P { Q a, b, v; int d; };
   vector<P> st; Q total = 0; st.push_back({a, b, glpanel(f, a, b), 0});
+  Q rough = qabs(st[0].v);        // magnitude of the integral: panels that cannot matter are not refined
   long budget = 6000;      // panels; a non-integrable or NaN integrand exhausts it and marks the reference unusable
   while (!st.empty()) {
     P p = st.back(); st.pop_back();
     Q m = (p.a + p.b) / 2, l = glpanel(f, p.a, m), r = glpanel(f, m, p.b);
     if (qnan(l + r) || qinf(l + r) || --budget < 0) { g_qbad = true; return total; }
-    if (qabs(l + r - p.v) <= (Q)1e-25 * qabs(l + r)) total += l + r;
+    if (qabs(l + r - p.v) <= (Q)1e-25 * qabs(l + r) || qabs(l + r - p.v) <= (Q)1e-26 * qmax(rough, qabs(total))) total += l + r;
     else if (p.d >= 1300) { g_qbad = true; total += l + r; }
     else { st.push_back({p.a, m, l, p.d + 1}); st.push_back({m, p.b, r, p.d + 1}); }
   }
@@ -383,11 +384,11 @@ static double rnd_a(vt::Rng& g) { static const double A[] = {1, 6378137, 4194304
 static AuxAngle rnd_ang(vt::Rng& g) {
   int w = int(g.range(0, 15)); double t;
   if (w < 7) t = tan(g.uni(0, 1.5707963267948966));
-  else if (w < 10) t = ldexp(g.uni(1, 2), int(g.range(-1050, 1000)));
+  else if (w < 10) t = ldexp(g.uni(1, 2), int(g.range(-1050, 800)));
   else if (w == 10) t = ldexp(g.uni(1, 2), int(g.range(-60, 60)));
   else if (w == 11) t = 1 + g.uni(-1e-6, 1e-6);
   else if (w == 12) t = ldexp(g.uni(1, 2), int(g.range(-1050, -1000)));      // denormal tangents (the last 24 binades: 'den' records)
-  else if (w == 13) t = ldexp(g.uni(1, 2), int(g.range(900, 1000)));
+  else if (w == 13) t = ldexp(g.uni(1, 2), int(g.range(700, 800)));       // beyond 2^800: 'den' records
   else t = tan(g.uni(1.5, 1.5707963267948966));
   if (g.coin()) t = -t;
   if (g.range(0, 3) == 0 && fabs(t) > 1e-270 && fabs(t) < 1e270) { double x = ldexp(g.uni(1, 2), int(g.range(-30, 30))); return AuxAngle(t * x, x); }
@@ -818,6 +819,7 @@ static void obs_ej(const EP& p, double x, Rec& r) {
     r.i("amu", ru).i("amp", rp).b("ameq", vt::bits(phi) == vt::bits(phi1));
     Q s = sinq((Q)phi), c = cosq((Q)phi);
     r.li("amj", {absU((Q)sn, s, 1), absU((Q)cn, c, 1), relU((Q)dn, 1 / legf(p, LF, s, c))});
+    { g_qbad = false; Q qf = R.at(LF, (Q)phi); if (!g_qbad) { Q pt = (Q)phi - (qf - (Q)x) / legf(p, LF, s, c); s = sinq(pt); c = cosq(pt); } }   // true amplitude
     if (p.k2 >= 0) {
       double s2, c2, d2; e.sncndn(x, s2, c2, d2);
       Q scale = qmax(1, qabs((Q)x));
@@ -856,7 +858,9 @@ typedef EllipticFunction EF;
 // fn: 0 RF3, 1 RF2, 2 RC, 3 RG3, 4 RG2, 5 RJ, 6 RD;  a[] holds the arguments
 static void obs_rc(int fn, const double* a, Rec& r) {
   double x = a[0], y = a[1], z = a[2], p = a[3];
-  r.i("fn", fn).li("ax", {ilog2(x), ilog2(y), fn == 1 || fn == 2 || fn == 4 ? -9999 : ilog2(z), fn == 5 ? ilog2(p) : -9999});
+  vector<long long> ax = {ilog2(x), ilog2(y), fn == 1 || fn == 2 || fn == 4 ? -9999 : ilog2(z), fn == 5 ? ilog2(p) : -9999};
+  long long lo = 99999, hi = -99999; for (long long e : ax) if (e != -9999) { lo = min(lo, e); hi = max(hi, e); }
+  r.i("fn", fn).li("ax", ax).i("sp", hi - lo).str("hx", vt::hexf(x) + " " + vt::hexf(y) + " " + vt::hexf(z) + " " + vt::hexf(p));
   double v; Q q; vector<long long> st;   // structure residuals
   auto rel2 = [](double u, double w) { return relU((Q)u, (Q)w); };
   switch (fn) {
@@ -886,11 +890,13 @@ static void obs_rc(int fn, const double* a, Rec& r) {
   r.li("v", d3(v)).i("rq", relU((Q)v, q)).li("st", st);
 }
 
-// denormal edge: tangents in the last binades above zero (and the corresponding cotangents are not representable)
+// the two ends of the tangent range: the last binades above zero (denormal) and below overflow
 static void rec_den(vt::Rng& g) {
   bool ser = g.range(0, 3) == 0; double f = rnd_f(g, ser); AuxCtx& C = ctx_for(rnd_a(g), f);
   int a, b; rnd_pair(g, a, b); int m = ser ? 0 : 1;
-  int e = int(g.range(-1074, -1045)); double t = ldexp(g.coin() ? 1.0 : g.uni(1, 2), e); if (t == 0) t = ldexp(1.0, -1074);
+  double t;
+  if (g.coin()) { int e = int(g.range(-1074, -1045)); t = ldexp(g.coin() ? 1.0 : g.uni(1, 2), e); if (t == 0) t = ldexp(1.0, -1074); }
+  else t = ldexp(g.uni(1, 2), int(g.range(800, 1023)));
   if (g.coin()) t = -t;
   AuxAngle z(t, 1.0), o = C.aux.Convert(a, b, z, m != 0);
   Rec r; r.str("e", "den").i("fi", -1);
@@ -945,8 +951,9 @@ static void do_rc(const vector<string>& t) {
   vector<long long> par; for (int i = 2; i <= 9; ++i) par.push_back(atoll(t[i].c_str()));
   Rec r; r.str("e", "rc").i("lat", 1).li("par", par); obs_rc(fn, a, r); r.emit(OUT);
 }
+static uint64_t mix64(uint64_t z) { z = (z ^ (z >> 30)) * 0xBF58476D1CE4E5B9ULL; z = (z ^ (z >> 27)) * 0x94D049BB133111EBULL; return z ^ (z >> 31); }
 static void one_record(vt::Rng& g, long long it) {
-  static const int W[] = {200, 120, 120, 60, 100, 80, 60, 10, 50, 20, 10, 50, 40, 20, 10, 15, 15, 20};   // per mille
+  static const int W[] = {200, 120, 120, 60, 100, 80, 60, 5, 50, 25, 5, 55, 45, 25, 10, 8, 12, 20};   // per mille
   int u = int(g.range(0, 999)), k = 0; while (u >= W[k]) { u -= W[k]; ++k; }
   switch (k) {
     case 0: rec_cv(g, it); break; case 1: rec_rtp(g); break; case 2: rec_se(g); break; case 3: rec_odd(g); break;
@@ -964,14 +971,14 @@ int main(int argc, char** argv) {
     int T = argc >= 3 ? atoi(argv[2]) : 16; if (T < 1) T = 1;
     vector<string> lines; string line;
     while (getline(cin, line)) if (!line.empty()) lines.push_back(line);
-    const size_t CHN = 256; size_t nl = lines.size();
+    size_t nl = lines.size(); const size_t B = 4, CHN = (nl + B - 1) / B;     // small batches, handed out dynamically
     vector<char*> buf(CHN, nullptr); vector<size_t> len(CHN, 0);
     std::atomic<size_t> next(0);
     auto work = [&]() {
       for (;;) {
         size_t c = next.fetch_add(1); if (c >= CHN) break;
         FILE* f = open_memstream(&buf[c], &len[c]); OUT = f;
-        for (size_t i = nl * c / CHN; i < nl * (c + 1) / CHN; ++i) {
+        for (size_t i = c * B; i < nl && i < (c + 1) * B; ++i) {
           auto t = vt::split(lines[i]); if (t.empty()) continue;
           if (t[0] == "cv") do_cv(t); else if (t[0] == "path") do_path(t);
           else if (t[0] == "ec" || t[0] == "ei" || t[0] == "ej") do_ell(t); else if (t[0] == "rc") do_rc(t);
@@ -987,14 +994,14 @@ int main(int argc, char** argv) {
   if (argc >= 4 && string(argv[1]) == "record") {
     uint64_t seed = strtoull(argv[2], 0, 10); long long n = atoll(argv[3]);
     int T = argc >= 5 ? atoi(argv[4]) : 16; if (T < 1) T = 1;
-    const int CH = 64;                       // fixed number of chunks: the trace does not depend on the thread count
+    const int CH = 512;                      // fixed number of chunks: the trace does not depend on the thread count
     vector<char*> buf(CH, nullptr); vector<size_t> len(CH, 0);
     std::atomic<int> next(0);
     auto work = [&]() {
       for (;;) {
         int c = next.fetch_add(1); if (c >= CH) break;
         FILE* f = open_memstream(&buf[c], &len[c]); OUT = f;
-        vt::Rng g(seed * 1000003ULL + uint64_t(c));
+        vt::Rng g(mix64(seed * 0x9E3779B97F4A7C15ULL + uint64_t(c) + 1));     // unrelated offsets of the generator's sequence
         long long lo = n * c / CH, hi = n * (c + 1) / CH;
         for (long long it = lo; it < hi; ++it) one_record(g, it);
         fclose(f); OUT = stdout;
